@@ -530,6 +530,7 @@ func dominatesInstr(a, b ssa.Instruction) bool {
 // (Return; Panic blocks are ignored unless includePanic) be reached without
 // executing any instruction for which pass returns true?
 func exitReachableAvoiding(from ssa.Instruction, pass func(ssa.Instruction) bool) (ssa.Instruction, bool) {
+	pass = liftMust(pass, 1) // a helper that does it on all of its paths counts
 	type item struct {
 		b     *ssa.BasicBlock
 		start int
